@@ -639,7 +639,10 @@ def drive(pid, prop, a, seed, scratch, t0):
     results = []
 
     def worker(job):
-        need = job.spec.mem_gb
+        # the per-harness cap (RLIMIT_AS) is a ceiling on address space, not what a run uses (measured
+        # resident sizes are 1-4 GB for caps up to 24 GB); small and medium jobs are scheduled at half
+        # their cap so the cores are used, the big-table jobs at their full cap
+        need = job.spec.mem_gb * (0.5 if job.spec.mem_gb <= 24 else 1.0)
         with cv:
             while state["running"] > 0 and (state["mem"] + need > mem_budget or state["running"] >= a.jobs):
                 cv.wait()
